@@ -6,6 +6,8 @@ import (
 	"os"
 	"sort"
 	"sync"
+	"sync/atomic"
+	"time"
 )
 
 func init() { cmds["enums"] = cmdEnums }
@@ -172,6 +174,47 @@ func enumRecord(t enumType, cs []enumConst, r *rand.Rand, thorough bool) M {
 	if consts == nil {
 		consts = []M{}
 	}
+	// the very first conversions of this type in this process come from eight goroutines at the same instant (a type's
+	// text tables may be built on first use): their texts are compared below with the ones obtained alone
+	type firstText struct {
+		v    uint64
+		text string
+		bad  bool
+	}
+	firsts := make([]firstText, 8)
+	{
+		var wg sync.WaitGroup
+		// released by a spin barrier (a closed channel wakes its waiters one after the other, microseconds apart) and then
+		// staggered by a few hundred nanoseconds each, so that some of them arrive while the first one is still at work
+		var ready int32
+		step := time.Duration(150+50*(len(cs)%7)) * time.Nanosecond
+		for g := range firsts {
+			v := all
+			if !t.Bitmask && len(cs) > 0 {
+				v = cs[g%len(cs)].Value
+			} else if g%2 == 1 && len(cs) > 0 {
+				v = cs[g%len(cs)].Value | cs[(g/2)%len(cs)].Value
+			}
+			firsts[g].v = v
+			wg.Add(1)
+			go func(g int) {
+				defer wg.Done()
+				defer func() {
+					if recover() != nil {
+						firsts[g].bad = true
+					}
+				}()
+				atomic.AddInt32(&ready, 1)
+				for atomic.LoadInt32(&ready) < int32(len(firsts)) {
+				}
+				for t0 := time.Now(); time.Since(t0) < time.Duration(g)*step; {
+				}
+				b, err := t.Marshal(firsts[g].v)
+				firsts[g].text, firsts[g].bad = string(b), err != nil
+			}(g)
+		}
+		wg.Wait()
+	}
 	var probes []M
 	// every defined constant
 	for i, c := range cs {
@@ -235,6 +278,12 @@ func enumRecord(t enumType, cs []enumConst, r *rand.Rand, thorough bool) M {
 	// the same conversions from four goroutines at once (values of one type converted by several goroutines, as when
 	// messages are logged or JSON-encoded concurrently): every text equals the one obtained alone
 	concDiff := 0
+	for _, f := range firsts {
+		b, err := t.Marshal(f.v)
+		if (err != nil) != f.bad || (err == nil && string(b) != f.text) {
+			concDiff++
+		}
+	}
 	if len(probes) > 1 {
 		type vt struct {
 			v    uint64
